@@ -497,6 +497,15 @@ func c14r4(p *Prog, r *Reporter) {
 							src = apath(ad.Common().Args[0])
 							if strings.Contains(src, "entityBuffer") || strings.Contains(src, ".buffers[") {
 								okb = true
+							} else if refs := ad.Common().Args[0].Referrers(); refs != nil {
+								// the same reflect.Value is also stored into a retained buffer field in this function
+								for _, ref := range *refs {
+									if s2, ok := ref.(*ssa.Store); ok && s2.Val == ad.Common().Args[0] {
+										if t2 := apath(s2.Addr); strings.HasSuffix(t2, ".entityBuffer") || strings.Contains(t2, ".buffers[") {
+											okb, src = true, t2+" (same value)"
+										}
+									}
+								}
 							}
 						}
 					}
